@@ -35,7 +35,7 @@ type Input struct {
 type Step struct {
 	Op    string `json:"op"` // "roundtrip" | "baddecode"
 	In    Input  `json:"in"`
-	Dst   int    `json:"dst"`  // 0 nil, 1 len0 small cap, 2 cap exact, 3 cap large dirty, 4 sub-slice of previous output
+	Dst   int    `json:"dst"`           // 0 nil, 1 len0 small cap, 2 cap exact, 3 cap large dirty, 4 sub-slice of previous output
 	Bad   string `json:"bad,omitempty"` // "random" | "truncate" | "flip"
 	BadAt int    `json:"badat,omitempty"`
 }
@@ -66,6 +66,7 @@ func newCodec(name string) compress.Codec {
 	}
 	panic("bad codec")
 }
+
 var codecNames = []string{"uncompressed", "snappy", "gzip", "brotli", "zstd", "lz4"}
 
 func genInput(t *rapid.T) Input {
